@@ -973,9 +973,10 @@ class GraphProcessor:
         else:
             raise RuntimeError('Either combination idx or graph instance is needed!')
 
+        # Never hand out a cached graph object: callers store design variable and metric values on the instance
+        if graph_instance is not None:
+            graph_instance = graph_instance.copy()
         if np.any(dv_node_existence):
-            if graph_instance is not None:
-                graph_instance = graph_instance.copy()
             for i_dv, des_var_node in enumerate(self.design_variable_nodes):
                 if not dv_node_existence[i_dv]:
                     continue
